@@ -35,10 +35,14 @@ theorem compileNode_str (cfg : CompCfg) {m} {s} (p : Pool) :
     let (k, p) ← mkConst (.str s) p
     pure ([li m.loc .push k], p)) := rfl
 
-theorem compileNode_const (cfg : CompCfg) {m} {v} (p : Pool) :
+theorem compileNode_const_nil (cfg : CompCfg) {m} (p : Pool) :
+    compileNode cfg (.const m .nil) p = .ok ([li m.loc .nil_], p) := rfl
+
+theorem compileNode_const (cfg : CompCfg) {m} {v} (p : Pool) (h : v ≠ .nil) :
     compileNode cfg (.const m v) p = (do
     let (k, p) ← mkConst v p
-    pure ([li m.loc .push k], p)) := rfl
+    pure ([li m.loc .push k], p)) := by
+  cases v <;> first | rfl | exact absurd rfl h
 
 theorem compileNode_unary (cfg : CompCfg) {m} {op} {x} (p : Pool) :
     compileNode cfg (.unary m op x) p = (do
